@@ -2,7 +2,7 @@
 From Coq Require Import Extraction ExtrOcamlBasic.
 From VB Require Import Base IR Sem Roundtrip ClassRT.
 From VB Require Import Classes Consts Common CodecDefs.
-From VB Require Import Mon OQModel Queue QueueDefs UFModel FileModel FileDefs.
+From VB Require Import Mon OQModel Queue QueueDefs UFModel UFSpec FileModel FileDefs.
 Extraction Language OCaml.
 Set Extraction KeepSingleton.
 Extraction "model.ml"
@@ -11,5 +11,6 @@ Extraction "model.ml"
   mk_ustream mk_fstream s_read s_seek prog_of
   mcall oq_methods oq_vt meth abs oq_init
   uf_init ustep uenabled uf_tellg_val uf_tellp_val uf_good uf_eof c_size
+  bq_init bq_step bq_read_ok bq_write_ok bq_obs
   f_write_session f_read_session C_stats fid_of
   Z.of_nat Z.to_nat Z.add Z.mul Z.sub Z.div Z.modulo Z.compare Z.eqb Z.ltb Z.opp Z.div_eucl.
